@@ -793,6 +793,8 @@ def shrink(ctx: Ctx, v: Violation) -> Violation:
 
     def still(case: Dict[str, Any]) -> Optional[Violation]:
         try:
+            if case.get("kind") == "program" and not M.in_domain(case):
+                return None  # the reduction left the generated domain (e.g. a symbol no longer fits its field)
             for x in replay(ctx, case):
                 if x.key() == key:
                     return x
